@@ -127,12 +127,15 @@ Example sample_tree_parses :
   pratt_impl (flat_full sample_tree) = Ok (Some sample_tree).
 Proof. vm_compute. split; reflexivity. Qed.
 
-(* ---- statements kept but not proved ---- *)
-(* The same with the ample fuel the correspondence uses (4 * token count + 4) instead of "every
-   large enough fuel": true on every case the correspondence runs (OUTOFFUEL is counted and must
-   be 0); a proof needs a fuel bound for the relations, not done. *)
-Definition C10_pratt_roundtrip_ample_fuel_full : Prop :=
-  forall par wn t, wf t = true -> pratt_impl (spec_render par wn t) = Ok (Some t).
+(* The same with the concrete fuel the correspondence uses (pratt: 4 * token count + 4) — no
+   "large enough": the model's fuel never runs out on a rendering (explicit bound 3 * size + 2,
+   proofs/PrattFuel.v). *)
+Theorem C10_pratt_roundtrip_ample_fuel : forall par wn t, wf t = true ->
+  pratt_impl (spec_render par wn t) = Ok (Some t).
+Proof. exact pratt_spec_roundtrip_ample. Qed.
+Check C10_pratt_roundtrip_ample_fuel : forall par wn t, wf t = true ->
+  pratt_impl (spec_render par wn t) = Ok (Some t).
+Print Assumptions C10_pratt_roundtrip_ample_fuel.
 
 (* ---------------------------------------------------------------------------------------------
    Names.  Model: C10Ident.v — the grammar rules identifier / identifier_rest / reserved_word /
